@@ -47,7 +47,7 @@ ENGINE_TB = TB_COMMON + [
 ENGINE_STREAMS = {
     # property: list of (profile, histories quick, histories thorough, ops)
     "C01": [("C01", 50, 1500, 40), ("static", 30, 1000, 40), ("wide", 30, 600, 30), ("widekids", 30, 600, 90)],
-    "C02": [("C01", 60, 1500, 40), ("midset", 40, 1000, 40)],
+    "C02": [("C01", 40, 1500, 40), ("midset", 30, 1000, 40), ("binds", 30, 1500, 40), ("raise", 40, 1000, 30)],
     "C03": [("C01", 40, 1500, 40), ("faults", 30, 1000, 40), ("alwaysfaults", 40, 1000, 40), ("sentinel", 80, 2000, 40)],
     "C05": [("C01", 30, 1500, 40), ("faults", 30, 1500, 40), ("reject", 30, 1000, 40), ("wide", 20, 400, 30), ("sentinel", 60, 1500, 40)],
     "C06": [("C01", 40, 1500, 40), ("churn", 40, 1000, 60), ("wide", 20, 400, 30), ("sentinel", 60, 1500, 40)],
@@ -55,7 +55,7 @@ ENGINE_STREAMS = {
     "C08": [("binds", 60, 3000, 40), ("inner", 30, 1000, 40), ("bind2", 60, 2000, 40)],
     "C10": [("C01", 30, 1500, 40), ("faults", 30, 1500, 40), ("inner", 40, 1500, 40)],
     "C11": [("cutoffs", 60, 3000, 40), ("midset", 50, 1500, 40)],
-    "C12": [("midset", 60, 1500, 40), ("unobs", 40, 1500, 40)],
+    "C12": [("midset", 40, 1500, 40), ("unobs", 30, 1500, 40), ("relink", 50, 1500, 34)],
     "C13": [("C01", 40, 1500, 40), ("midset", 30, 1500, 40), ("inner", 30, 1500, 40)],
 }
 
@@ -64,6 +64,7 @@ ENGINE_STREAMS = {
 # implements them (e.g. C07 demands a consistent graph = C05's oracle, converging values = C01's,
 # nothing lost = C03's; C03's "only necessary nodes run" is the lifecycle oracle of C10)
 ENGINE_INCLUDES = {
+    "C02": "C05",
     "C03": "C10",
     "C06": "C05",
     "C07": "C01,C03,C05",
